@@ -40,3 +40,41 @@ theorem C13_refused_no_session (s : Server) (conn : Nat) (k : Connect) (code : N
 example : ((connect { init {} with auth := .none } 1 { ver := 5, id := [99] }).2.length) = 2 := by decide
 
 end Mochi.Broker
+
+namespace Mochi.Broker
+
+def runOuts (s : Server) (ops : List Op) : Server × List Out :=
+  ops.foldl (fun (acc : Server × List Out) op => let r := step acc.1 op; (r.1, acc.2 ++ r.2)) (s, [])
+
+/-- what connection `conn` was written, in order: `true` for a CONNACK -/
+def connStream (outs : List Out) (conn : Nat) : List Bool :=
+  outs.filterMap fun o => match o with
+    | .wrote c (.connack ..) => if c == conn then some true else none
+    | .wrote c _ => if c == conn then some false else none
+    | _ => none
+
+/-- **F13 (schedule).** A session with a subscription to `a` is resumed on connection 3; its handler is
+    parked between `Clients.Add` and `SendConnack`; another client publishes to `a`; the handler
+    resumes: connection 3 is written the PUBLISH first and the CONNACK second. (Replayed on the real
+    broker on every run: corpus/C13.) -/
+theorem C13_connack_first_counterexample :
+    connStream (runOuts (init {})
+      [.connect 1 { ver := 5, clean := false, id := [99, 49], sei := some 100 },
+       .recv 1 (.subscribe 5 0 [{ filter := [97] }]),
+       .drop 1,
+       .connect 2 { ver := 4, id := [99, 50] },
+       .connectHold 3 { ver := 5, clean := false, id := [99, 49], sei := some 100 } 2,
+       .recv 2 (.publish 0 false false 0 [97] [1] 0 none),
+       .release 3]).2 3 = [false, true] := by decide
+
+/-- the same history without the parked handler: CONNACK first -/
+example :
+    connStream (runOuts (init {})
+      [.connect 1 { ver := 5, clean := false, id := [99, 49], sei := some 100 },
+       .recv 1 (.subscribe 5 0 [{ filter := [97] }]),
+       .drop 1,
+       .connect 2 { ver := 4, id := [99, 50] },
+       .connect 3 { ver := 5, clean := false, id := [99, 49], sei := some 100 },
+       .recv 2 (.publish 0 false false 0 [97] [1] 0 none)]).2 3 = [true, false] := by decide
+
+end Mochi.Broker
